@@ -54,6 +54,11 @@ def run(facts, rep, ctx):
     config_table(facts, rep, R3)
     helpers(facts, rep, R4)
     symmetry(facts, rep, R5)
+    # what is stored for a compressed path is the configured format's own stream, and a read expands it with the same
+    # format: CompressionFormat::{compress, decompress, is_compressed_filename} are pure dispatch (shared with C11-R11.1)
+    R7 = rep.rule("R12.7", "CompressionFormat methods hand the caller's bytes to the configured format's method and return its result unchanged", floor=6)
+    import c11
+    c11.dispatch(facts, rep, R7)
     R6 = rep.rule("R12.6", "a layer write creates or replaces the whole file with the caller's bytes", floor=2)
     write_replaces(facts, rep, R6)
     write_reaches_layer(facts, rep, R6)
